@@ -59,6 +59,21 @@ def run_property(prop, tier, seed, make_cases, bounds, assumptions, confirm=None
             d['name'] = c.get('name', str(c.get('line'))) + ' {' + ''.join('1' if b else '0' for b in bits) + '}'
             expanded.append(d)
     cases = expanded
+    # choice split: the first occurrence of the named environment choices is fixed per sub-case ((label, n) pairs; values >= the actual arity are infeasible)
+    expanded = []
+    for c in cases:
+        cs = c.pop('csplit', None)
+        if not cs: expanded.append(c); continue
+        import itertools
+        for vals in itertools.product(*[range(n) for _, n in cs]):
+            d = dict(c); fc = {}
+            for (lab, _), v in zip(cs, vals): fc.setdefault(lab, []).append(v)
+            d['forced_choices'] = fc
+            d['name'] = c.get('name', str(c.get('line'))) + ' <' + ','.join(str(v) for v in vals) + '>'
+            expanded.append(d)
+    cases = expanded
+    if os.environ.get('VERIF_ONLY'):        # development aid: run only the cases whose name contains this text (registered commands never set it)
+        cases = [c for c in cases if os.environ['VERIF_ONLY'] in c.get('name', str(c.get('line')))]
     run.cases_by_name = {c.get('name', str(c.get('line'))): c for c in cases}
     run.bounds = dict(bounds)
     run.bounds.update(cases=len(cases), solver_timeout_ms=BUDGET['solver_ms'], step_budget_per_path=BUDGET['steps'], profiles=list(profiles))
